@@ -61,29 +61,31 @@ func (c *verifC09Chain) commitBlock(tag string) {
 	prev := c.tip()
 	next := verifC09Block{prevRoot: prev.root, balances: prev.balances, stored: prev.stored}
 	for i := 0; i < 2; i++ {
-		if tag == "b" && i == 1 {
-			continue // the first non-final block touches the first account only
+		if (tag == "b" && i == 1) || (tag == "f" && i == 0) {
+			continue // the first non-final block touches the first account only, the second final block the second one
 		}
 		acc, err := c.adb.LoadAccount(verifAddrs[i])
 		verifAssert(err == nil, "load account")
 		ua := acc.(state.UserAccountHandler)
-		// balances are 1 or 2. Genesis: 1 and 1; first block: the first account goes to 2; second block: the first
+		// balances: genesis 1 and 1; a second final block gives the second account 2; first non-final block: the first account goes to 2; second block: the first
 		// account gets a SYMBOLIC value (it may bring back exactly the genesis value - decided by the solver through
 		// the hash model), the second account keeps its value or changes
 		nb := big.NewInt(1)
 		switch {
+		case tag == "f": // second final block: only the second account changes (the first account's leaf is older than the final root)
+			nb = big.NewInt(int64(1 + i))
 		case tag == "b":
 			nb = big.NewInt(2)
 		case tag == "c" && i == 0:
 			nb = big.NewInt(int64(1 + verifU8(tag+"balance0")&1))
 		case tag == "c":
-			nb = big.NewInt(int64(1 + verifChoice(tag+"balance1", 2)))
+			nb = big.NewInt(int64(2 + verifChoice(tag+"balance1", 2))) // unchanged (2) or new (3)
 		case tag != "g":
 			nb = big.NewInt(int64(1 + verifChoice(tag+"balance"+string(rune('0'+i)), 2)))
 		}
 		_ = ua.AddToBalance(big.NewInt(0).Sub(nb, ua.GetBalance()))
 		next.balances[i] = nb
-		if i == 0 {
+		if i == 0 && tag != "f" {
 			// the storage of the first account: unchanged, or a value written / removed
 			if v := verifChoice(tag+"storage", 3); v != 0 {
 				var val []byte
@@ -197,6 +199,9 @@ func verifC09New() *verifC09Chain {
 	c := &verifC09Chain{adb: adb, tsm: tsm, db: db}
 	c.final = verifC09Block{balances: [2]*big.Int{big.NewInt(0), big.NewInt(0)}}
 	c.commitBlock("g")
+	c.finalizeOldest()
+	// a second final block, so that the genesis root is pruned and its new-hashes entry is gone
+	c.commitBlock("f")
 	c.finalizeOldest()
 	return c
 }
